@@ -117,27 +117,28 @@ theorem suggestDecisionToProto_norm (d : SuggestDecision) :
 theorem measFromProto_empty (cfg : Cfg) : measFromProto cfg emptyPMeas = emptyMeas := by
   obtain ⟨a, b, c, d⟩ := cfg
   cases a <;> simp only [measFromProto, emptyPMeas, emptyMeas, List.foldl_nil, Meas.mk.injEq, true_and, and_true,
-    Bool.false_eq_true, if_false, if_true] <;> decide +kernel
-
-theorem measToProto_empty : measToProto emptyMeas = emptyPMeas := by decide +kernel
+    Bool.false_eq_true, if_false, if_true, Option.getD_none] <;> decide +kernel
 
 theorem earlyStopDecision_roundtrip (cfg : Cfg) (d : EarlyStopDecision)
-    (h : ∀ m, d.predicted = some m → MeasOk cfg m) :
+    (hp : d.predicted.isSome = true) (h : ∀ m, d.predicted = some m → MeasOk cfg m) :
     earlyStopDecisionFromProto cfg (earlyStopDecisionToProto d) = earlyStopDecisionNorm d := by
   obtain ⟨id, reason, stop, pred⟩ := d
   cases pred with
-  | none => simp [earlyStopDecisionFromProto, earlyStopDecisionToProto, earlyStopDecisionNorm, measFromProto_empty]
+  | none => simp at hp
   | some m => simp [earlyStopDecisionFromProto, earlyStopDecisionToProto, earlyStopDecisionNorm, meas_roundtrip cfg m (h m rfl)]
 
 theorem earlyStopDecisionToProto_norm (d : EarlyStopDecision) :
     earlyStopDecisionToProto (earlyStopDecisionNorm d) = earlyStopDecisionToProto d := by
   obtain ⟨id, reason, stop, pred⟩ := d
   cases pred with
-  | none => simp [earlyStopDecisionToProto, earlyStopDecisionNorm, measToProto_empty]
+  | none => rfl
   | some m => simp [earlyStopDecisionToProto, earlyStopDecisionNorm, measToProto_measNorm]
 
 structure EarlyStopDecisionsOk (cfg : Cfg) (d : EarlyStopDecisions) : Prop where
   decisions : ∀ e ∈ d.decisions, ∀ m, e.predicted = some m → MeasOk cfg m
+  /-- every decision carries a prediction (without one, `to_decisions_proto` sends an empty
+  `Measurement()` that `from_decisions_proto` turns into a prediction) -/
+  predicted : ∀ e ∈ d.decisions, e.predicted.isSome = true
   metadata : DeltaWF d.metadata
 
 theorem earlyStopDecisions_roundtrip (cfg : Cfg) (d : EarlyStopDecisions) (h : EarlyStopDecisionsOk cfg d) :
@@ -148,7 +149,7 @@ theorem earlyStopDecisions_roundtrip (cfg : Cfg) (d : EarlyStopDecisions) (h : E
   rw [List.map_map]
   apply List.map_congr_left
   intro e he
-  exact earlyStopDecision_roundtrip cfg e (h.decisions e he)
+  exact earlyStopDecision_roundtrip cfg e (h.predicted e he) (h.decisions e he)
 
 theorem earlyStopDecisionsToProto_norm (d : EarlyStopDecisions) :
     earlyStopDecisionsToProto (earlyStopDecisionsNorm d) = earlyStopDecisionsToProto d := by
